@@ -4,6 +4,8 @@ it answers - and which exceptions it raises - must not depend on which kind it i
     file     a real buffered file on disk (open(path, 'rb'))            - seek() beyond 2**63 raises ValueError / OSError, not OverflowError
     mmap     a read-only memory map of that file                          - seek() returns None before Python 3.13, seeks beyond the end raise
     minimal  a hand-written object with nothing but read, seek and tell   - seek() returns None, no other method or attribute exists
+    gzip     gzip.open() of a compressed copy on disk                      - seekable, but fileno() is the descriptor of the *compressed* file
+    tar      tarfile.extractfile() of a member stored in a tar archive     - a window at a non-zero offset of another file, no fileno()
 
 One scratch file per process is reused (truncated and rewritten for every case); it lives in a private temporary directory that is
 removed at exit."""
@@ -15,7 +17,8 @@ import shutil
 import tempfile
 
 _dir = None
-KINDS = ('file', 'mmap', 'minimal')
+KINDS = ('file', 'mmap', 'minimal', 'gzip', 'tar')
+WRAPPED_MAX = 1 << 18      # gzip seeks backwards by inflating again from the start: keep the wrapped kinds to small images
 
 
 def _path():
@@ -80,6 +83,25 @@ class opened:
         if self.kind == 'minimal':
             return Minimal(self.data)
         p = _path()
+        if self.kind == 'gzip':
+            import gzip
+            with gzip.GzipFile(p + '.gz', 'wb', compresslevel=1, mtime=0) as f:
+                f.write(self.data)
+            f = gzip.open(p + '.gz', 'rb')
+            self._close.append(f)
+            return f
+        if self.kind == 'tar':
+            import tarfile
+            with tarfile.open(p + '.tar', 'w') as t:
+                for name, payload in (('lead', b'\x7fELF' + bytes(509)), ('image', self.data)):
+                    ti = tarfile.TarInfo(name)
+                    ti.size = len(payload)
+                    t.addfile(ti, io.BytesIO(payload))
+            t = tarfile.open(p + '.tar', 'r')
+            self._close.append(t)
+            f = t.extractfile('image')
+            self._close.append(f)
+            return f
         with open(p, 'wb') as f:
             f.write(self.data)
         f = open(p, 'rb')
@@ -109,14 +131,18 @@ _last = []
 
 def pick(data, salt=0):
     """-> (stream, kind): the kind of stream is a deterministic function of the bytes (so that a replayed case meets the same kind);
-    the stream handed out by the previous call of this process is closed.  A quarter of the cases each: BytesIO, minimal, mmap, real file."""
+    the stream handed out by the previous call of this process is closed.  BytesIO, minimal, mmap, real file, and - for images up to
+    256 KiB - a gzip wrapper and a tar member, in equal shares."""
     import zlib
     while _last:
         try:
             _last.pop().__exit__(None, None, None)
         except Exception:  # noqa
             pass
-    kind = ('bytesio', 'minimal', 'mmap', 'file')[(zlib.crc32(bytes(data)) + salt) % 4]
+    h = zlib.crc32(bytes(data)) + salt
+    kind = ('bytesio', 'minimal', 'mmap', 'file', 'gzip', 'tar')[h % 6]
+    if kind in ('gzip', 'tar') and len(data) > WRAPPED_MAX:
+        kind = ('bytesio', 'minimal', 'mmap', 'file')[h % 4]
     cm = opened(data, kind)
     _last.append(cm)
     return cm.__enter__(), kind
